@@ -9,7 +9,7 @@ from ..cfg import build_cfg, calls_in
 from ..core import Ctx, property_info, rule, share
 from ..exc import MayRaise
 from ..model import AnalysisError, ClassInfo, FuncInfo, Module, dotted_name, norm_text, walk_no_nested
-from ..q import leaves_at, callable_body, sort_calls, reach_table, reach_env, value_texts, passes, func_text, names_from_calls, return_values, stores, unparse
+from ..q import leaves_at, tests_raw, callable_leaves, callable_body, sort_calls, reach_table, reach_env, value_texts, passes, func_text, names_from_calls, return_values, stores, unparse
 
 CONV = "xsdata.formats.converter"
 ENUMS = "xsdata.models.enums"
@@ -114,10 +114,12 @@ def documented_priority(ctx: Ctx) -> None:
     st = ctx.repo.func(f"{CONV}:ConverterFactory.sort_types")
     ok = False
     for c, key, rev in sort_calls(st.node):
-        cb = callable_body(ctx.repo, st, key)
-        if cb is not None and cb[1] and (rev is None or (isinstance(rev, ast.Constant) and rev.value is False)):
-            body, arg0 = cb[0], cb[1][0]
-            ok = unparse(body).replace(" ", "") in (f"__PYTHON_TYPES_SORTED__.get({arg0},0)", f"__PYTHON_TYPES_SORTED__.get({arg0},default=0)")
+        kl = callable_leaves(ctx.repo, st, key)
+        if kl is not None and (rev is None or (isinstance(rev, ast.Constant) and rev.value is False)):
+            texts = {t for t, _ in kl}
+            # table lookup with 0 for unknown types: T.get(x, 0), or T[x] under `x in T` else 0
+            ok = texts in ({"__PYTHON_TYPES_SORTED__.get(_,0)"}, {"__PYTHON_TYPES_SORTED__.get(_,default=0)"}) or (
+                texts == {"__PYTHON_TYPES_SORTED__[_]", "0"} and all(("_in__PYTHON_TYPES_SORTED__", True) in c for t, c in kl if t == "__PYTHON_TYPES_SORTED__[_]"))
     ctx.ob("sort_types sorts ascending by the table (unknown types first)", ok, at=st, construct="sort key", msg="sort key is not the priority table")
     # str is last: it accepts everything, so any type after it would be unreachable
     ctx.ob("str has the highest priority number (tried last)", bool(code_order) and code_order[-1] == "str", at=mod, node=table, construct="str last",
@@ -145,21 +147,24 @@ def strict_test_coverage(ctx: Ctx) -> None:
     t = ctx.repo.func(f"{CONV}:ConverterFactory.test")
     covered: set[str] = set()
     g = build_cfg(t.node)
-    strict_tests = [n for n in g.nodes if n.kind == "test" and unparse(n.ast) == "strict"]
     decoded = names_from_calls(t.node, ("deserialize",))
     for n in g.nodes:
-        if n.kind == "test" and isinstance(n.ast, ast.Call) and unparse(n.ast.func) == "isinstance" and isinstance(n.ast.args[0], ast.Name) and n.ast.args[0].id in decoded \
-                and isinstance(n.ast.args[1], ast.Tuple):
-            covered = {unparse(e) for e in n.ast.args[1].elts}
+        if n.kind == "test" and isinstance(n.ast, ast.Call) and unparse(n.ast.func) == "isinstance" and len(n.ast.args) == 2 and isinstance(n.ast.args[0], ast.Name) and n.ast.args[0].id in decoded:
+            tp = n.ast.args[1]
+            if isinstance(tp, ast.Name) and isinstance(t.module.globals.get(tp.id), ast.Tuple):
+                tp = t.module.globals[tp.id]
+            covered |= {unparse(e) for e in tp.elts} if isinstance(tp, ast.Tuple) else {unparse(tp)}
     need = {"int", "float", "Decimal", "XmlPeriod"}
     for tp in sorted(need):
         ctx.ob(f"strict test re-serialises {tp}", tp in covered, at=t, construct=f"strict {tp}", msg=f"'{tp}' values with non-canonical spelling (leading zeros, +, trailing zeros) would be inferred as {tp} and change on output")
-    rets = [n for n in g.returns() if isinstance(n.ast.value, ast.Compare) and len(n.ast.value.ops) == 1 and isinstance(n.ast.value.ops[0], ast.Eq)]
+    from ..q import flows
+    rets = [(chain[-1] if chain else n, leaf) for n in g.returns() if n.ast.value is not None for leaf, chain in flows(t, n, n.ast.value)
+            if isinstance(leaf, ast.Compare) and len(leaf.ops) == 1 and isinstance(leaf.ops[0], ast.Eq)]
     ok = False
     kw_ok = False
-    for r in rets:
-        sides = [r.ast.value.left, r.ast.value.comparators[0]]
-        stripped = [x for x in sides if unparse(x).replace(" ", "") == "value.strip()"]
+    for r, cmp_ in rets:
+        sides = [cmp_.left, cmp_.comparators[0]]
+        stripped = [x for x in sides if "value.strip()" in value_texts(t, r, x)]
         other = [x for x in sides if x not in stripped]
         if len(stripped) == 1 and len(other) == 1:
             leaves = leaves_at(t, r, other[0])
@@ -168,7 +173,7 @@ def strict_test_coverage(ctx: Ctx) -> None:
                 kw_ok = all(any(k.arg is None for k in x.keywords) for x in leaves)
     ctx.ob("strict comparison is stripped input == re-serialised value", ok, at=t, construct="strict compare", msg="strict comparison changed")
     ctx.ob("strict re-serialisation passes the same kwargs as the deserialisation", kw_ok, at=t, construct="strict kwargs", msg="format/ns_map not forwarded to serialize")
-    ctx.ob("non-str input is never valid", any(n.kind == "test" and unparse(n.ast).replace(" ", "") == "isinstance(value,str)" for n in g.nodes), at=t, construct="str only", msg="non-str accepted")
+    ctx.ob("non-str input is never valid", bool(tests_raw(t, "isinstance(value, str)")), at=t, construct="str only", msg="non-str accepted")
 
 
 NARROWING = {
@@ -195,19 +200,34 @@ def _not_none_assert_on_parsed(fi: FuncInfo, node: ast.Assert) -> bool:
                             last.add(t.elts[-1].id)
             elif isinstance(st, ast.For) and {x.id for x in ast.walk(st.iter) if isinstance(x, ast.Name)} & derived:
                 derived |= {x.id for x in ast.walk(st.target) if isinstance(x, ast.Name)}
-    t = node.test
-    checks = [t]
-    if isinstance(t, ast.Call) and isinstance(t.func, ast.Name) and t.func.id == "all" and t.args and isinstance(t.args[0], (ast.GeneratorExp, ast.ListComp)):
-        comp = t.args[0]
-        if not ({x.id for x in ast.walk(comp.generators[0].iter) if isinstance(x, ast.Name)} & (derived - last)):
-            return False
-        checks = [comp.elt]
-        derived = derived | {x.id for x in ast.walk(comp.generators[0].target) if isinstance(x, ast.Name)}
-    for c in checks:
-        if not (isinstance(c, ast.Compare) and len(c.ops) == 1 and isinstance(c.ops[0], ast.IsNot) and isinstance(c.comparators[0], ast.Constant) and c.comparators[0].value is None
-                and isinstance(c.left, ast.Name) and c.left.id in derived and c.left.id not in last):
-            return False
-    return True
+    # the optional %z slot: also when it is taken off the end of a list of the parsed components
+    for st in walk_no_nested(fi.node):
+        if isinstance(st, ast.Assign) and isinstance(st.targets[0], ast.Name):
+            v = st.value
+            if isinstance(v, ast.Call) and isinstance(v.func, ast.Attribute) and v.func.attr == "pop" and not v.args and isinstance(v.func.value, ast.Name) and v.func.value.id in derived:
+                last.add(st.targets[0].id)
+            if isinstance(v, ast.Subscript) and isinstance(v.value, ast.Name) and v.value.id in derived and isinstance(v.slice, ast.UnaryOp):
+                last.add(st.targets[0].id)
+
+    def not_none(c: ast.expr, extra: set[str], want_is_none: bool = False) -> bool:
+        op = ast.Is if want_is_none else ast.IsNot
+        return (isinstance(c, ast.Compare) and len(c.ops) == 1 and isinstance(c.ops[0], op) and isinstance(c.comparators[0], ast.Constant) and c.comparators[0].value is None
+                and isinstance(c.left, ast.Name) and c.left.id in (derived | extra) and c.left.id not in last)
+
+    def ok(t: ast.expr) -> bool:
+        if isinstance(t, ast.BoolOp) and isinstance(t.op, ast.And):
+            return all(ok(v) for v in t.values)
+        neg = False
+        if isinstance(t, ast.UnaryOp) and isinstance(t.op, ast.Not):
+            t, neg = t.operand, True
+        if isinstance(t, ast.Call) and isinstance(t.func, ast.Name) and t.func.id == ("any" if neg else "all") and t.args and isinstance(t.args[0], (ast.GeneratorExp, ast.ListComp)):
+            comp = t.args[0]
+            if not ({x.id for x in ast.walk(comp.generators[0].iter) if isinstance(x, ast.Name)} & (derived - last)):
+                return False
+            return not_none(comp.elt, {x.id for x in ast.walk(comp.generators[0].target) if isinstance(x, ast.Name)}, want_is_none=neg)
+        return not neg and not_none(t, set())
+
+    return ok(node.test)
 
 
 def _assert_ok(fi: FuncInfo, node: ast.Assert) -> bool:
